@@ -83,6 +83,7 @@ def run_op(
     setup: Optional[Callable[[World], None]] = None,
     model_overrides: Optional[Dict[str, Val]] = None,
     n=None,
+    msize=None,
     callbacks: Optional[Dict[str, Any]] = None,
 ) -> Outcome:
     box = box or Box()
@@ -95,8 +96,8 @@ def run_op(
     if setup:
         setup(w)
     m = w.make_model(custom_gamma=custom_gamma, overrides=model_overrides)
-    if n is not None and teams == "teams:well-formed":
-        tv = w.make_teams(n=n)
+    if (n is not None or msize is not None) and teams == "teams:well-formed":
+        tv = w.make_teams(n=n, m=msize)
     else:
         tv = build_teams(w, teams, foreign)
     kwargs: Dict[str, Val] = {}
@@ -115,6 +116,8 @@ def run_op(
             kwargs["limit_sigma"] = lv
     if n is not None:
         case["n"] = str(n)
+    if msize is not None:
+        case["m"] = str(msize)
     w.I.events.clear()  # construction events are not part of the operation
     w.I.raises.clear()
     res = w.call(m, op, [tv], kwargs)
